@@ -19,7 +19,7 @@ META = {
 RULE = ("case = (grammar-derived document incl. @string references, BibtexFormat from the grid indent x value_column x trailing_comma x separator); "
         "non-trivial = the document has an entry with >= 2 fields or a resolved string reference; distinct = distinct (text, format)")
 ASSUMPTIONS = ["indent and block_separator range over whitespace-only strings", "documents are collision-free (duplicates are C09/C06's subject)"]
-MIN = {"roundtrip_content": (15000, 300000), "fixpoint_bytes": (15000, 300000), "resolved_reference_docs": (500, 10000)}
+MIN = {"roundtrip_content": (30000, 1500000), "fixpoint_bytes": (30000, 1500000), "resolved_reference_docs": (1000, 50000)}
 
 INDENTS = ["", " ", "\t", "    "]
 COLUMNS = [0, 1, 5, 12, 40, "auto"]
@@ -58,7 +58,7 @@ def with_refs(r, text, truth):
 
 def cases(tier, seed, shard, nshards):
     r = rng_for(seed, shard, "c05")
-    n = tier_pick(tier, 24000, 480000) // nshards
+    n = tier_pick(tier, 48000, 2400000) // nshards
     for i in range(n):
         opts = grammar.Opts(max_items=r.choice([1, 3, 6]), nest=r.choice([1, 3]))
         text, truth = grammar.document(r, opts)
